@@ -71,11 +71,28 @@ theorem xsi_type_differs :
      | some d, some e => defEqv d e
      | _, _ => true) = false := by decide +kernel
 
-/-- F-xml-4 (`xml-cr-not-escaped`): the string `a CR b` is written with a literal CR … -/
-theorem cr_written_raw : write (encode .str (.str [97, 13, 98])) = [97, 13, 98] := by decide
+/-- F-xml-4 (`xml-cr-not-escaped`, FIXED by 7fbc5bc): quick-xml's `escape` alone leaves a CR literal … -/
+theorem cr_escape_raw : escape [97, 13, 98] = [97, 13, 98] := by decide
 
-/-- … which an XML reader normalises to `a LF b` (XML 1.0 §2.11) -/
+/-- … which an XML reader normalises to `a LF b` (XML 1.0 §2.11) … -/
 theorem cr_read_as_lf : (match XmlSpec.charData [97, 13, 98] with | .ok s => s == [97, 10, 98] | _ => false) = true := by
+  decide
+
+/-- … since the fix the string `a CR b` is written as `a&#13;b` … -/
+theorem cr_written_as_reference :
+    write (encode .str (.str [97, 13, 98])) = [97, 38, 35, 49, 51, 59, 98] := by decide
+
+/-- … which an XML reader reads as `a CR b` -/
+theorem cr_reference_read_back :
+    (match XmlSpec.charData [97, 38, 35, 49, 51, 59, 98] with | .ok s => s == [97, 13, 98] | _ => false) = true := by
+  decide
+
+/-- F-xml-9 (`xml-eol-not-normalised`): a literal CR LF in character data denotes one LF (XML 1.0 §2.11) … -/
+theorem eol_meaning : (match XmlSpec.charData [97, 13, 10, 98] with | .ok s => s == [97, 10, 98] | _ => false) = true := by
+  decide
+
+/-- … the deserialiser hands `a CR LF b` to the backend -/
+theorem eol_not_normalised : (match decodeStr [97, 13, 10, 98] with | .ok s => s == [97, 13, 10, 98] | _ => false) = true := by
   decide
 
 /-- `junk<Key>k</Key>junk` -/
